@@ -98,3 +98,25 @@ pub fn bucket_meta_from_le<T>(value: &[u8]) -> crate::bucket::BucketMeta {
     let b = [value[8], value[9], value[10], value[11], value[12], value[13], value[14], value[15]];
     crate::bucket::BucketMeta { root_page: u64::from_le_bytes(a), next_int: u64::from_le_bytes(b) }
 }
+
+/// `copy_nonoverlapping` in 16-byte chunks plus a tail (a 256-byte page = 16 iterations): for harnesses that need a
+/// SMALL unwind bound (the bound also limits every recursion, e.g. the drop glue of std::io::Error); opt-in per harness
+pub unsafe fn copy_nonoverlapping_chunked<T>(src: *const T, dst: *mut T, count: usize) {
+    if std::mem::size_of::<T>() == 1 {
+        let s = src as *const u8;
+        let d = dst as *mut u8;
+        let chunks = count / 16;
+        let mut c = 0;
+        while c < chunks {
+            copy16(s.wrapping_add(16 * c), d.wrapping_add(16 * c));
+            c += 1;
+        }
+        let mut i = 16 * chunks;
+        while i < count {
+            *d.wrapping_add(i) = *s.wrapping_add(i);
+            i += 1;
+        }
+    } else {
+        fwd(src, dst, count)
+    }
+}
